@@ -1810,3 +1810,144 @@ func ruleLastElementGuarded(r *Run) {
 	}
 	r.check(n >= 5, "datatypes:last-element-accesses", fmt.Sprintf("%d", n), "fewer than confirmed by reading: rule needs review", "-")
 }
+
+// ---------------------------------------------------------------------------------------------
+// C11 round e.
+
+func init() {
+	reg := func(id, prop string) {
+		register(ruleDef{ID: id, Prop: prop, Tier: "quick", Floor: 2,
+			Title: "no critical section is empty: in the repository's non-test code no mutex is released by the very next instruction after it was acquired (an acquire followed at once by the release protects nothing — what was meant is a deferred release)",
+			Fn:    ruleNoEmptyCriticalSection})
+	}
+	reg("R11.22", "C11")
+	reg("R20.37", "C20")
+	register(ruleDef{ID: "R11.23", Prop: "C11", Tier: "quick", Floor: 2,
+		Title: "an instance name is tested and taken in one critical section: in newData the store into the repo's data map under the write lock is decided by a lookup of the same name made under that same acquisition",
+		Fn:    ruleNameTestedWhereTaken})
+}
+
+func ruleNoEmptyCriticalSection(r *Run) {
+	w := r.W
+	n, empty := 0, 0
+	for _, f := range w.RepoFuncs {
+		if len(f.Blocks) == 0 || strings.HasSuffix(w.fposFile(f), "_test.go") || strings.HasPrefix(relPkg(pkgPathOf(f)), "cmd/") {
+			continue
+		}
+		for _, b := range f.Blocks {
+			var prev ssa.Instruction
+			for _, in := range b.Instrs {
+				if _, isDbg := in.(*ssa.DebugRef); isDbg {
+					continue
+				}
+				if op, ok := asLockOp(in); ok {
+					if op.lock {
+						n++
+					}
+					if _, isDefer := in.(*ssa.Defer); !op.lock && !isDefer && prev != nil {
+						if pop, ok2 := asLockOp(prev); ok2 && pop.lock && pop.key == op.key {
+							if _, prevDefer := prev.(*ssa.Defer); !prevDefer {
+								empty++
+								r.violation(fmt.Sprintf("%s:empty-critical-section#%d:%s", fname(f), empty, op.name),
+									"the mutex "+op.name+" is released by the instruction right after the one that acquired it: nothing is protected — the fields read or written below are accessed unlocked (encoding a map that another request inserts into ends the process with 'concurrent map iteration and map write')", w.pos(in.Pos()))
+							}
+						}
+					}
+				}
+				// taking the address of the mutex for the release does not count as work
+				if fa, isFA := in.(*ssa.FieldAddr); isFA && strings.Contains(fa.Type().String(), "sync.") {
+					continue
+				}
+				prev = in
+			}
+		}
+	}
+	r.check(n >= 100, "repo:lock-acquisitions", fmt.Sprintf("%d acquisitions scanned, %d empty critical sections", n, empty), "fewer lock acquisitions than expected: rule needs review", "-")
+	r.check(true, "repo:scanned", "scanned", "", "-")
+}
+
+func ruleNameTestedWhereTaken(r *Run) {
+	w := r.W
+	f := w.method("datastore", "repoManager", "newData")
+	if f == nil {
+		r.undecided("datastore.repoManager.newData", "anchor not found")
+		return
+	}
+	n := 0
+	for _, b := range f.Blocks {
+		for _, in := range b.Instrs {
+			mu, ok := in.(*ssa.MapUpdate)
+			if !ok || !isFieldLoad(mu.Map, "repoT", "data") {
+				continue
+			}
+			n++
+			// the acquisition under which the store happens
+			held, acq := heldAt(f, mu, "RWMutex", true)
+			ok2 := false
+			if held && acq != nil {
+				for _, b2 := range f.Blocks {
+					for _, x := range b2.Instrs {
+						lk, isLk := x.(*ssa.Lookup)
+						if !isLk || !lk.CommaOk || !isFieldLoad(lk.X, "repoT", "data") || stripConv(lk.Index) != stripConv(mu.Key) {
+							continue
+						}
+						h2, a2 := heldAt(f, lk, "RWMutex", true)
+						if h2 && a2 == acq && domInstr(lk, mu) {
+							ok2 = true
+						}
+					}
+				}
+			}
+			r.check(ok2, "newData:name-tested-under-the-write-lock", "the name is looked up under the acquisition that inserts it",
+				"the instance name is tested under one lock acquisition and inserted under another: of several simultaneous creations of one name more than one is acknowledged, and the later instance silently replaces the earlier", w.pos(mu.Pos()))
+		}
+	}
+	r.check(n >= 1, "newData:data-map-stores", fmt.Sprintf("%d", n), "the insertion into the repo's data map was not found: rule needs review", w.fpos(f))
+}
+
+func init() {
+	reg := func(id, prop string) {
+		register(ruleDef{ID: id, Prop: prop, Tier: "quick", Floor: 2,
+			Title: "a repo's saves reach the store in the order of their snapshots: in repoT.saveToStore a mutex acquired in the function is held from the serialization of the repo to the Put of the result",
+			Fn:    ruleSaveSnapshotAndWriteTogether})
+	}
+	reg("R11.24", "C11")
+	reg("R3.24", "C03")
+}
+
+func ruleSaveSnapshotAndWriteTogether(r *Run) {
+	w := r.W
+	f := w.method("datastore", "repoT", "saveToStore")
+	if f == nil {
+		r.undecided("datastore.repoT.saveToStore", "anchor not found")
+		return
+	}
+	var ser, put ssa.Instruction
+	for _, c := range calls(f) {
+		if callee := staticCallee(c); callee != nil && callee.Name() == "Serialize" && relPkg(pkgPathOf(callee)) == "dvid" {
+			ser = c
+		}
+		if methodNameOf(c) == "Put" && c.Common().IsInvoke() {
+			put = c
+		}
+	}
+	if !r.check(ser != nil && put != nil, "saveToStore:steps", "serialization and Put found", "Serialize or Put not found: rule needs review", w.fpos(f)) {
+		return
+	}
+	ok := false
+	for _, b := range f.Blocks {
+		for _, in := range b.Instrs {
+			op, isOp := asLockOp(in)
+			if !isOp || !op.lock || !op.write {
+				continue
+			}
+			h1, w1 := heldKeyAt(f, ser, op.key)
+			h2, w2 := heldKeyAt(f, put, op.key)
+			if h1 && w1 && h2 && w2 {
+				ok = true
+			}
+		}
+	}
+	r.check(ok, "saveToStore:snapshot-and-write-under-one-lock", "one mutex is held from the serialization to the Put",
+		"the repo is serialized and written without a lock across the two steps: of two concurrent changes the older snapshot can be written last, both requests are acknowledged, and after the next start one change is gone", w.pos(put.Pos()))
+}
